@@ -282,7 +282,48 @@ def x_assert(ctx, case):
     return not want
 
 
-SUBCHECKS = {"describe": x_describe, "text_repr": x_text_repr, "assert": x_assert}
+def x_reported_text(ctx, case):
+    """What the failing assertThat reports is the mismatch as it was when the assertion failed: an
+    addOnException handler that tidies up the very object the assertion looked at (after logging it, say) does
+    not change the text; and a matchee handed over as a one-shot iterator is described like the same list."""
+    import testtools
+    E = c06.env()
+    expr, raw = case["expr"], case["value"]
+    try:
+        want = G.sem(expr, G.mkvalue(raw, E), E, raw)
+    except G.Propagates:
+        return False
+    if want:
+        return False
+    m = G.build(expr, E)       # one instance throughout: some matchers' text carries the object's address
+    try:
+        expected = m.match(G.mkvalue(raw, E)).describe()
+    except Exception as e:  # noqa - in-domain input: that is the violation, not a harness problem
+        ctx.check(False, "describe()-returns-text", {"expr": expr, "value": raw, "error": repr(e)})
+        return True
+    if expr[0] in ("AnyMatch", "AllMatch"):
+        as_iter = m.match(iter(G.mkvalue(raw, E)))
+        got = as_iter.describe() if as_iter is not None else None
+        ctx.check(got == expected, "describe()-is-repeatable-and-shown",
+                  lambda: {"expr": expr, "value": raw, "described for the list": expected, "for an iterator over it": got})
+    value = G.mkvalue(raw, E)
+
+    class T(testtools.TestCase):
+        def test(self):
+            self.addOnException(lambda exc_info: value.clear())
+            self.assertThat(value, m, "", case.get("verbose", False))
+    log = recorders.Log()
+    T("test").run(recorders.ExtRecorder(log))
+    outs = [e for e in log.events if e.name in recorders.OUTCOMES]
+    tb = b"".join(v[1] for k, v in ((outs[0].payload.get("details") or {}).items() if outs else []) if k.startswith("traceback"))
+    ctx.check(len(outs) == 1 and outs[0].name == "addFailure" and expected.encode("utf8", "replace") in tb,
+              "assert.error-text-carries-message",
+              lambda: {"expr": expr, "value": raw, "described when it failed": expected,
+                       "reported": tb.decode("utf8", "replace")[-300:]})
+    return True
+
+
+SUBCHECKS = {"describe": x_describe, "text_repr": x_text_repr, "assert": x_assert, "reported_text": x_reported_text}
 
 ALPHABET = ["'", '"', "\\", "\n", "\r", "a", "\xe9", "\U0001f600", "\x00", "\x7f", " ", " "]
 BALPHABET = [0x27, 0x22, 0x5c, 0x0a, 0x0d, 0x61, 0xe9, 0xff, 0x00, 0x7f, 0x20, 0x80]
@@ -342,6 +383,16 @@ def run(ctx):
         else:
             b = bytes(rng.choice(BALPHABET) if rng.random() < 0.6 else rng.randrange(256) for _ in range(L))
             ctx.execute("text_repr", {"bytes": True, "hex": b.hex(), "multiline": rng.choice([None, True, False])})
+    for i in range(ctx.scale(1500, 60000)):
+        if ctx.out_of_time():
+            break
+        dom = rng.choice(["list", "lstr", "dict"])
+        e = G.random_expr(rng, dom, rng.randint(0, 2))
+        if rng.random() < 0.3 and dom != "dict":
+            e = [rng.choice(["AnyMatch", "AllMatch"]), G.random_expr(rng, "int" if dom == "list" else "str", 1)]
+        vals = [v for v in G.domain_values(dom, e) if len(v) == 2]      # plain lists / dicts
+        if vals:
+            ctx.execute("reported_text", {"expr": e, "value": rng.choice(vals), "verbose": rng.random() < 0.5})
     # ---- (c) assertThat / assert_that / expectThat -------------------------------------------------
     names = ["foo", "foo-1", "log", "log-1", "traceback", "Failed expectation"]
     for i in range(ctx.scale(8000, 400000)):
